@@ -7,6 +7,9 @@
    MISMATCH kinds:
      model  impl vs model of the code (class, error multiset, docs); `shape` when the real forest violates the invariant
      spec   a CONTRACT line of the harness (panic / timeout / crash / unlocated error / rendering panics)
+   Slow / killed cases of the kinds `lad` and `esc-*` (families that may touch the registered class C09-validator-exponential): the model
+   of the unmodified front end runs on the same forest under a time guard; its verdict (validator steps, time) is appended to the
+   observation, `outside C09-validator-exponential` when the unmodified algorithm is cheap on the text.
    usage: c09_runner <flags: 8 chars 0/1 = escape peek choice unroll extras lr tag insens> [lrskip]
    `lrskip`: left-recursion errors are not compared (the implementation's check_expr is being repaired elsewhere: C06). *)
 open Front_model
@@ -140,9 +143,10 @@ let is_time_problem msg = has_prefix "took " msg || has_prefix "no answer" msg |
 let outside_marker = "outside C09-validator-exponential"
 let cheap_steps = 100000          (* validator steps of the model below which a text is cheap for the unmodified algorithm *)
 let cheap_model_s = 0.5           (* ... and the whole model (reader, validator, optimizer passes) answers within this time *)
-let model_guard_s = 1.5
+let model_guard_s = 0.8
 let verdicts : (string, string) Hashtbl.t = Hashtbl.create 64
-let judged_outside = ref 0 and judged_known = ref 0
+let judged_outside = ref 0 and judged_known = ref 0 and model_unfinished = ref 0
+let ladder_guard_s = 2.0
 
 let () =
   let fl = flags_of (if Array.length Sys.argv > 1 then Sys.argv.(1) else "00000000") in
@@ -194,6 +198,14 @@ let () =
         else if String.length text_s > max_model_len || expo_n > 14 then incr skipped_long
         else begin
           incr modelled;
+          (* a ladder just below the time limit of the property costs the model (unary numbers) minutes: its comparison is given up
+             after a few seconds and counted *)
+          let impl_ms = (try Scanf.sscanf extras "ms=%d" (fun x -> x) with _ -> 0) in
+          let guarded body =
+            if not (has_prefix "lad" kind) then body ()
+            else if impl_ms > 150 then incr model_unfinished     (* the model is two orders of magnitude slower than the code *)
+            else (match with_guard ladder_guard_s body with Some () -> () | None -> incr model_unfinished) in
+          guarded (fun () ->
           let t0 = Unix.gettimeofday () in
           let text = to_str text_s in
           let f = parse_forest forest in
@@ -229,11 +241,11 @@ let () =
           if idocs <> "-" && idocs <> mdocs then report "model" case ("docs|" ^ idocs) mdocs;
           let dt = Unix.gettimeofday () -. t0 in
           if dt > !slowest then (slowest := dt; slowest_case := String.sub case 0 (min 100 (String.length case)));
-          if dt > 3.0 && Sys.getenv_opt "C09_SLOW" <> None then prerr_endline (Printf.sprintf "slow %.1fs len=%d %s" dt (String.length text_s) (String.sub case 0 (min 300 (String.length case))))
+          if dt > 3.0 && Sys.getenv_opt "C09_SLOW" <> None then prerr_endline (Printf.sprintf "slow %.1fs len=%d %s" dt (String.length text_s) (String.sub case 0 (min 300 (String.length case)))))
         end
       end
     | _ -> ());
-  Printf.printf "#JUDGED\tslow_judged_outside_known_class=%d\tslow_left_to_known_class=%d\n" !judged_outside !judged_known;
+  Printf.printf "#JUDGED\tslow_judged_outside_known_class=%d\tslow_left_to_known_class=%d\tladder_model_unfinished=%d\n" !judged_outside !judged_known !model_unfinished;
   Printf.printf "#MODELSLOWEST\t%.2fs\t%s\n" !slowest !slowest_case;
   Printf.printf "#RUNNER\tcases=%d\tmismatches=%d\tmodelled=%d\tparse_failed=%d\tskipped_long=%d\tshape_checked=%d\n"
     !cases !mismatches !modelled !parse_failed !skipped_long !shape_checked
